@@ -247,6 +247,31 @@ theorem ethosu_verbatim_sound (src out : PGraph) (h : ethosuVerbatimProblems src
   · simp at this
 
 
+/-- second generation: if the placement scan reports nothing, every plan entry of the output gives every operand and result of
+    every passed-through Ethos-U operator the arena offset it had in the compiled input. -/
+theorem ethosu_placement_sound (src out : PGraph) (splan : List Int) (oplans : List (List Int))
+    (h : ethosuPlacementProblems src out splan oplans = []) :
+    ∀ (j : Nat) (sop : POp), src.ops[j]? = some sop → isEthosU sop = true →
+      ∀ (oop : POp) (k : Nat), ethosuCandidates src out sop = [(oop, k)] →
+        ∀ pl ∈ oplans, ∀ p ∈ operandPairs sop oop, splan[p.1]? = pl[p.2]? := by
+  intro j sop hj he oop k hc pl hpl p hp
+  unfold ethosuPlacementProblems at h
+  rw [List.flatMap_eq_nil_iff] at h
+  have h1 := h (sop, j) (mem_zipIdx' hj)
+  simp only [he, Bool.not_true, Bool.false_eq_true, if_false, hc] at h1
+  rw [List.flatMap_eq_nil_iff] at h1
+  obtain ⟨pi, hpi⟩ := List.getElem?_of_mem hpl
+  have h2 := h1 (pl, pi) (mem_zipIdx' hpi)
+  simp only at h2
+  rw [List.filterMap_eq_nil_iff] at h2
+  have h3 := h2 p hp
+  obtain ⟨a, b⟩ := p
+  simp only at h3 ⊢
+  by_cases hq : (splan[a]? == pl[b]?) = true
+  · exact beq_iff_eq.mp hq
+  · simp [hq] at h3
+
+
 /-! ## non-vacuity of the Spec: a mixed NPU/CPU pair that is accepted, and mutants that are rejected -/
 
 def tQ (name : String) (shape : List Int) : PTensor :=
@@ -313,5 +338,12 @@ example : (ethosuVerbatimProblems demoOut { demoOut with ops := demoOut.ops.map 
 example : (ethosuVerbatimProblems demoOut { demoOut with tensors := demoOut.tensors.set 3 { tC "7363" 16 "" with const := none } }).map (·.kind) =
     ["operand-shape"] := by decide +kernel
 example : (ethosuVerbatimProblems demoOut { demoOut with ops := demoOut.ops.drop 1 }).map (·.kind) = ["ethosu-lost"] := by decide +kernel
+
+/-- placement, non-vacuity: the demo model with the plan [96, -1, -1, 0, 0, 0, 224] (result "61" at 96, input "78" at 0) keeps it;
+    a second plan entry that moves the result to 256 is rejected although the first entry is intact -/
+example : ethosuPlacementProblems demoOut demoOut [96, -1, -1, 0, 0, 0, 224] [[96, -1, -1, 0, 0, 0, 224]] = [] ∧
+    (operandPairs (demoOut.ops.headD default) (demoOut.ops.headD default)).length = 6 := by decide +kernel
+example : (ethosuPlacementProblems demoOut demoOut [96, -1, -1, 0, 0, 0, 224]
+    [[96, -1, -1, 0, 0, 0, 224], [256, -1, -1, 0, 0, 0, 224]]).map (·.kind) = ["ethosu-operand-moved"] := by decide +kernel
 
 end VelaVerif.Props.C11
